@@ -297,8 +297,17 @@ func (vc *VC) backEdge(fr *frame, ed *Edge) {
 		}
 		vc.oblige("invariant-step", fmt.Sprintf("loop%d.inv%s.step.b%d", l.ordinal, labelOr(inv.Label, k), ed.from.blk.Index), inv.Text, pos, ed.cond, t)
 	}
+	// names at the end of the iteration: a loop-carried variable has the value that flows along this back edge
+	endLookup := func(name string) (Val, bool) {
+		for phi, v := range vals {
+			if phi.Comment == name {
+				return v, true
+			}
+		}
+		return vc.nodeLookup(fr, ed.from, nil, nil)(name)
+	}
 	for k, sc := range lc.Steps {
-		ctx := &SpecCtx{vc: vc, lookup: vc.nodeLookup(fr, ed.from, nil, nil), st: ed.from.st, oldSt: fr.entrySt, oldLookup: func(name string) (Val, bool) { return vc.paramLookup(fr, name) }, pkg: fr.fn.Pkg.Pkg, fnName: fr.fn.Name(), fr: fr, loop: l}
+		ctx := &SpecCtx{vc: vc, lookup: endLookup, st: ed.from.st, oldSt: fr.entrySt, oldLookup: func(name string) (Val, bool) { return vc.paramLookup(fr, name) }, pkg: fr.fn.Pkg.Pkg, fnName: fr.fn.Name(), fr: fr, loop: l}
 		t, err := ctx.EvalBool(sc.E)
 		if err != nil {
 			sc.Skipped++
@@ -309,7 +318,7 @@ func (vc *VC) backEdge(fr *frame, ed *Edge) {
 		vc.oblige("step", fmt.Sprintf("loop%d.step%s.b%d", l.ordinal, labelOr(sc.Label, k), ed.from.blk.Index), sc.Text, pos, ed.cond, t)
 	}
 	for i, mc := range lc.MustCalls {
-		ctx := &SpecCtx{vc: vc, lookup: vc.nodeLookup(fr, ed.from, nil, nil), st: ed.from.st, oldSt: fr.entrySt, oldLookup: func(name string) (Val, bool) { return vc.paramLookup(fr, name) }, pkg: fr.fn.Pkg.Pkg, fnName: fr.fn.Name(), fr: fr, loop: l}
+		ctx := &SpecCtx{vc: vc, lookup: endLookup, st: ed.from.st, oldSt: fr.entrySt, oldLookup: func(name string) (Val, bool) { return vc.paramLookup(fr, name) }, pkg: fr.fn.Pkg.Pkg, fnName: fr.fn.Name(), fr: fr, loop: l}
 		w, err := ctx.EvalBool(mc.When)
 		if err != nil {
 			// a variable of the condition is not declared yet on this path (e.g. an early `continue`): the clause
@@ -1226,9 +1235,14 @@ func (vc *VC) loopMayDelete(fr *frame, n *Node, mt *types.Map) string {
 			}
 			c := ci.Common()
 			if bi, ok := c.Value.(*ssa.Builtin); ok {
-				if bi.Name() == "delete" || bi.Name() == "clear" {
-					return "the loop calls " + bi.Name()
+				if bi.Name() == "clear" {
+					return "the loop calls clear"
 				}
+				if bi.Name() == "delete" && fr != vc.top {
+					return "the loop calls delete (inlined frame)"
+				}
+				// delete in the function under verification: allowed, each such call carries the obligation that it
+				// removes from a map other than the ranged one (rangedelete)
 				continue
 			}
 			callee := c.StaticCallee()
